@@ -12,6 +12,14 @@ fn gen_keys(g: &mut Rng) -> Vec<[u8; 32]> {
         base = [0u8; 32];
         base[31] = g.below(4) as u8;
     }
+    if g.chance(1, 6) {
+        // the pool straddles a carry out of the last byte (…00fd, …00ff, …0100, …) or out of
+        // the last two bytes
+        base[31] = 0xff - g.below(4) as u8;
+        if g.bool() {
+            base[30] = 0xff;
+        }
+    }
     if g.chance(1, 10) {
         // close to the 2^256 boundary
         base = [0xff; 32];
